@@ -165,7 +165,75 @@ class ExecMixin(object):
         return out
 
     # -- assignment --------------------------------------------------------
+    def _filtered_comp_as_loop(self, node):
+        """name = {elt for x in IT if C}  (or the list form), read as
+
+            name = set()
+            for x in IT:
+                if C: name.add(elt)
+
+        so that a set built by a filtering comprehension is the same object
+        for the rules (a collection with recorded, path-conditioned additions)
+        as one built by the explicit loop."""
+        if len(node.targets) != 1 or not isinstance(node.targets[0], ast.Name):
+            return None
+        v = node.value
+        if not isinstance(v, (ast.SetComp, ast.ListComp)) or len(v.generators) != 1:
+            return None
+        g = v.generators[0]
+        if not g.ifs or g.is_async:
+            return None
+        name = node.targets[0].id
+        if any(isinstance(x, ast.Name) and x.id == name for x in ast.walk(v)):
+            return None
+        is_set = isinstance(v, ast.SetComp)
+        init = ast.Assign(
+            targets=[ast.Name(id=name, ctx=ast.Store())],
+            value=ast.Call(func=ast.Name(id="set", ctx=ast.Load()), args=[], keywords=[])
+            if is_set else ast.List(elts=[], ctx=ast.Load()), type_comment=None)
+        cond = g.ifs[0] if len(g.ifs) == 1 else ast.BoolOp(op=ast.And(), values=list(g.ifs))
+        add = ast.Expr(value=ast.Call(
+            func=ast.Attribute(value=ast.Name(id=name, ctx=ast.Load()),
+                               attr="add" if is_set else "append", ctx=ast.Load()),
+            args=[v.elt], keywords=[]))
+        loop = ast.For(target=g.target, iter=g.iter,
+                       body=[ast.If(test=cond, body=[add], orelse=[])],
+                       orelse=[], type_comment=None)
+        for n in (init, loop):
+            ast.copy_location(n, v)
+            for x in ast.walk(n):
+                if not hasattr(x, "lineno"):
+                    ast.copy_location(x, v)
+            ast.fix_missing_locations(n)
+        return [init, loop]
+
+    def _iterated_later(self, name, node, frame):
+        """is the local `name` the iterable of a for loop further down?"""
+        for x in ast.walk(frame.func.node):
+            if isinstance(x, ast.For) and x.lineno > node.lineno and any(
+                    isinstance(y, ast.Name) and y.id == name for y in ast.walk(x.iter)):
+                return True
+        return False
+
     def st_Assign(self, node, state, frame):
+        as_loop = self._filtered_comp_as_loop(node)
+        if as_loop is not None and not self._iterated_later(node.targets[0].id, node, frame):
+            # a value that is only tested / returned stays a term -- unless it is
+            # one part of a partition: a sibling comprehension over the same
+            # source is iterated (the parts are then read the same way)
+            src = ast.dump(node.value.generators[0].iter)
+            sib = False
+            for x in ast.walk(frame.func.node):
+                if x is not node and isinstance(x, ast.Assign) and \
+                        self._filtered_comp_as_loop(x) is not None and \
+                        ast.dump(x.value.generators[0].iter) == src and \
+                        self._iterated_later(x.targets[0].id, x, frame):
+                    sib = True
+            if not sib:
+                as_loop = None
+        if as_loop is not None:
+            return self.exec_block(as_loop, state, frame)
+
         def cont(s, v):
             res = [(s, NORMAL)]
             for t in node.targets:
